@@ -122,15 +122,16 @@ pub unsafe extern "C" fn kmerminhash_clear(ptr: *mut SourmashKmerMinHash) {
     mh.clear();
 }
 
-#[no_mangle]
-pub unsafe extern "C" fn kmerminhash_add_hash(ptr: *mut SourmashKmerMinHash, h: u64) {
+ffi_fn! {
+unsafe fn kmerminhash_add_hash(ptr: *mut SourmashKmerMinHash, h: u64) {
     let mh = SourmashKmerMinHash::as_rust_mut(ptr);
 
     mh.add_hash(h);
 }
+}
 
-#[no_mangle]
-pub unsafe extern "C" fn kmerminhash_add_hash_with_abundance(
+ffi_fn! {
+unsafe fn kmerminhash_add_hash_with_abundance(
     ptr: *mut SourmashKmerMinHash,
     h: u64,
     abundance: u64,
@@ -139,9 +140,10 @@ pub unsafe extern "C" fn kmerminhash_add_hash_with_abundance(
 
     mh.add_hash_with_abundance(h, abundance);
 }
+}
 
-#[no_mangle]
-pub unsafe extern "C" fn kmerminhash_add_word(ptr: *mut SourmashKmerMinHash, word: *const c_char) {
+ffi_fn! {
+unsafe fn kmerminhash_add_word(ptr: *mut SourmashKmerMinHash, word: *const c_char) {
     let mh = SourmashKmerMinHash::as_rust_mut(ptr);
 
     // FIXME: take buffer and len instead of c_char
@@ -152,6 +154,7 @@ pub unsafe extern "C" fn kmerminhash_add_word(ptr: *mut SourmashKmerMinHash, wor
     };
 
     mh.add_word(c_str.to_bytes());
+}
 }
 
 ffi_fn! {
